@@ -51,7 +51,7 @@ TARGETS = {
 # scheduling point in mode "vis" (it is one in mode "all", used by the thorough tier to test this claim)
 SHARED = re.compile(
     r"\.forward_refs\b(?!,)|__forward_evaluated__|__forward_value__|evaluate_forward_ref|self\.type\b|self\.output_type\b"
-    r"|addition_type|__args__|__arg_transformers__|\b_cache\b|\b_registry\b|__parsers__|position_type|return_type"
+    r"|addition_type|__args__|__arg_transformers__|\b_cache\b|\b_registry\b|\b_generation\b|__parsers__|position_type|return_type"
     r"|^\s*with\s+[\w.]*lock[\w.]*\s*:|\.args\b"
 )
 LOCK_RE = re.compile(r"^\s*with\s+([\w.]*lock[\w.]*)\s*:", re.I)
@@ -110,15 +110,22 @@ NAMES = {
     ],
     "res": [
         (r"^cached = self\._cache\.get\(t\)", "cget"),
-        (r"^if self\.cache and t in self\._cache:", "cchk"),
-        (r"^return self\._cache\[t\]", "cget"),
+        (r"^generation = self\._generation", "gen"),
         (r"^for detector, trans, priority in self\._registry:", "iter"),
+        (r"^with\s", "lock"),
+        (r"^if generation == self\._generation:", "gchk"),
         (r"^self\._cache\[t\] = trans", "cset"),
+        (r"^if self\.cache and t in self\._cache:", "cchk"),          # before C20-registry-cache-lookup
+        (r"^return self\._cache\[t\]", "cget"),                        # before C20-registry-cache-lookup
     ],
     "reg": [
-        (r"^self\._registry\.insert\(0, \(detector, f, priority\)\)", "ins"),
-        (r"^self\._registry\.sort\(", "sort"),
+        (r"^with\s", "lock"),
         (r"^self\._cache\.clear\(\)", "clr"),
+        (r"^registry = \[\(detector, f, priority\)\] \+ self\._registry", "copy"),
+        (r"^self\._registry = registry", "pub"),
+        (r"^self\._generation \+= 1", "gen"),
+        (r"^self\._registry\.insert\(0, \(detector, f, priority\)\)", "ins"),   # before C20-register-race
+        (r"^self\._registry\.sort\(", "sort"),                                   # before C20-register-race
     ],
     "apf": [
         (r"^if not no_cache and key in __parsers__:", "chk"),
@@ -597,27 +604,55 @@ def impl_registry(case):
     alone = [[_registry_sequential(dict(case, threads=[[op]]), [(0, 0)])[0][0][0] for op in ops] for ops in threads]
     do = _registry_env(case)
     s = Sched(case["sched"], case.get("mode", "vis"), case.get("points") or ["res", "reg"])
-    outs = s.run([(lambda ops=ops: [do(op) for op in ops]) for ops in threads])
+    # real-time order: operation A precedes B when A had returned before B was called
+    stamps = [[None] * n for n in lens]
+
+    def body(t, ops):
+        out = []
+        for k, op in enumerate(ops):
+            a = s.steps
+            r = do(op)
+            stamps[t][k] = (a, s.steps)
+            out.append(r)
+        return out
+
+    outs = s.run([(lambda t=t, ops=ops: body(t, ops)) for t, ops in enumerate(threads)])
     post = None if s.deadlock else [do({"res": c}) for c in range(NCLS)]
-    # is there a sequential order of the operations (keeping each thread's own order) with these results?
-    has_reg = any("reg" in op for ops in threads for op in ops)
     lin = None
     if not s.deadlock:
-        if not has_reg:
-            lin = (outs == seq_outs and post == seq_post)
-        else:
-            lin = False
-            n = 0
-            for order in _interleavings(lens):
-                n += 1
-                if n > 400:
-                    break
-                o, p = _registry_sequential(case, order)
-                if o == outs and p == post:
-                    lin = True
-                    break
+        before = set()
+        for t1 in range(len(threads)):
+            for k1 in range(lens[t1]):
+                for t2 in range(len(threads)):
+                    for k2 in range(lens[t2]):
+                        if t1 != t2 and stamps[t1][k1] and stamps[t2][k2] and stamps[t1][k1][1] < stamps[t2][k2][0]:
+                            before.add(((t1, k1), (t2, k2)))
+        lin = False
+        n = 0
+        for order in _interleavings(lens):
+            pos = {op: i for i, op in enumerate(order)}
+            if any(pos[a] > pos[b] for a, b in before):
+                continue
+            n += 1
+            if n > 3000:
+                lin = None          # too many candidate orders: undecided
+                break
+            o, p = _registry_sequential(case, order)
+            if o == outs and p == post:
+                lin = True
+                break
     return {"outs": outs, "post": post, "seq": seq_outs, "seq_post": seq_post, "alone": alone, "lin": lin,
-            "trace": s.trace, "steps": s.per_thread, "deadlock": s.deadlock}
+            "stamps": stamps, "trace": s.trace, "steps": s.per_thread, "deadlock": s.deadlock}
+
+
+def probe_registry(case):
+    out = []
+    for t in range(len(case["threads"])):
+        do = _registry_env(case)
+        s = Sched([[t, 10 ** 9]], case.get("mode", "vis"), case.get("points") or ["res", "reg"])
+        s.run([(lambda ops=ops: [do(op) for op in ops]) for ops in case["threads"]])
+        out.append(s.per_thread[t])
+    return {"steps": out}
 
 
 # ---- the module-level parser cache `__parsers__` (BaseParser.apply_for): spec sweep only -------------
@@ -674,16 +709,6 @@ def impl_apf(case):
     outs = s.run([(lambda ops=ops: [do(op) for op in ops]) for ops in threads])
     return {"outs": outs, "post": None if s.deadlock else post(), "seq": seq_outs, "seq_post": seq_post, "alone": alone,
             "trace": s.trace, "steps": s.per_thread, "deadlock": s.deadlock}
-
-
-def probe_registry(case):
-    out = []
-    for t in range(len(case["threads"])):
-        do = _registry_env(case)
-        s = Sched([[t, 10 ** 9]], case.get("mode", "vis"), case.get("points") or ["res", "reg"])
-        s.run([(lambda ops=ops: [do(op) for op in ops]) for ops in case["threads"]])
-        out.append(s.per_thread[t])
-    return {"steps": out}
 
 
 # ------------------------------------------------------------------------------------------------
@@ -815,11 +840,10 @@ def gen_registry(rng, nthreads=2, with_reg=False):
     for t in range(nthreads):
         ops = [{"res": rng.randrange(NCLS)} for _ in range(rng.randint(1, 3))]
         threads.append(ops)
-    if with_reg:
+    for _ in range(with_reg if isinstance(with_reg, int) and not isinstance(with_reg, bool) else (1 if with_reg else 0)):
         t = rng.randrange(nthreads)
         k = rng.randint(0, len(threads[t]))
-        threads[t] = threads[t][:k] + [{"reg": c16.gen_reg(rng, 500)}] + threads[t][k:]
-        threads[t] = threads[t][:3]
+        threads[t] = (threads[t][:k] + [{"reg": c16.gen_reg(rng, 500 + rng.randrange(50))}] + threads[t][k:])[:3]
     # make lookups collide: the same class from several threads
     if rng.random() < 0.7:
         c = rng.randrange(NCLS)
@@ -917,7 +941,7 @@ class C20(Check):
         first_reg = len(items)
         for i in range(nreg):
             nt = 2 if (tier == "quick" or rng.random() < 0.6) else 3
-            items.append(gen_registry(rng, nt, with_reg=(i % 5 == 4)))
+            items.append(gen_registry(rng, nt, with_reg=(0, 1, 0, 1, 2)[i % 5]))
         first_apf = len(items)
         for i in range({"quick": 2, "thorough": 6, "search": 2}[tier]):
             nt = 2 if i % 2 == 0 else 3
@@ -974,7 +998,9 @@ class C20(Check):
             w["shortcut"] = case.get("shortcut", [])
             w["default"] = case.get("default")
             norm = lambda r: dict({"custom": None, "meta": None, "attr": None, "classes": [], "sub": True}, **r)
-            return {"op": "registry", "world": w, "cache": case["cache"], "legacy": bool(os.environ.get("C20_LEGACY")),
+            legacy = bool(os.environ.get("C20_LEGACY"))            # before C20-registry-cache-lookup
+            prefix = legacy or bool(os.environ.get("C20_REG_LEGACY"))   # before C20-register-race
+            return {"op": "registry" if prefix else "registry2", "world": w, "cache": case["cache"], "legacy": legacy,
                     "init": [norm(r) for r in case.get("init", [])], "nclasses": NCLS,
                     "threads": [[({"reg": norm(op["reg"])} if "reg" in op else op) for op in ops] for ops in case["threads"]],
                     "trace": io["trace"]}
@@ -1044,9 +1070,9 @@ class C20(Check):
                 for k, o in enumerate(outs):
                     if "err" in o:
                         return f"thread {t} operation {k} failed with {o['err']}"
-            if not io.get("lin"):
+            if io.get("lin") is False:
                 return (f"lookups returned {json.dumps(io['outs'])} and later lookups {json.dumps(io['post'])}: no order of "
-                        f"the operations run one after the other gives that (sequential: {json.dumps(io['seq'])}, "
+                        f"the operations run one after the other (respecting which operation had returned before another was called) gives that (sequential: {json.dumps(io['seq'])}, "
                         f"{json.dumps(io['seq_post'])})")
             return None
         for t, (outs, al, sq) in enumerate(zip(io["outs"], io["alone"], io["seq"])):
@@ -1062,13 +1088,7 @@ class C20(Check):
         return None
 
     def classify(self, case, io, why):
-        # a *registration* racing with a lookup of the same registry (not a parse racing with a parse)
-        if case.get("op") == "registry" and "no order of the operations" in why:
-            regs = [t for t, ops in enumerate(case["threads"]) if any("reg" in op for op in ops)]
-            ress = [t for t, ops in enumerate(case["threads"]) if any("res" in op for op in ops)]
-            if regs and any(t not in regs or len(ress) > 1 for t in ress):
-                return "register-races-with-lookup"
-        return None
+        return None          # no known finding: register-races-with-lookup is fixed (fixes/C20-register-race.patch)
 
     # ---- evidence --------------------------------------------------------------------------------
     @staticmethod
@@ -1131,7 +1151,7 @@ class C20(Check):
     REQUIRED = {
         "rfr": ["chk", "lock", "list", "get", "eval", "isev", "rdval", "wr", "popd", "addn", "clr1", "clr2"],
         "frf": ["pos?", "ret?"], "fld": ["ty?", "ty", "oty?"], "rft": ["isev", "rdval"], "pv": ["rdty", "errty"],
-        "tc": ["isev", "rdval"], "res": ["cget", "iter", "cset"], "reg": ["ins", "sort", "clr"],
+        "tc": ["isev", "rdval"], "res": ["cget", "gen", "iter", "lock", "gchk", "cset"], "reg": ["lock", "clr", "copy", "pub", "gen"],
         "apf": ["chk", "get", "set"],
     }
     ALL_NAMED = ("rfr", "frf", "fld", "rft", "res", "reg", "apf")     # no unnamed shared-state line allowed here
